@@ -585,7 +585,7 @@ func ruleOneResultOneReceive(c *core.Ctx, rule string, top *ssa.Function) {
 	}
 	isRecvOrCallOfReceiver := func(self ssa.Instruction) ipred {
 		return func(in ssa.Instruction) bool {
-			if in == self {
+			if self != nil && in == self {
 				return false
 			}
 			for _, r := range recvs {
@@ -614,29 +614,42 @@ func ruleOneResultOneReceive(c *core.Ctx, rule string, top *ssa.Function) {
 				"no path from this receive reaches another receive of the same result", "after this receive the function can receive from the result channel again: the goroutine sends once, the second receive blocks for ever").Path = c.P.PathStrings(p)
 			continue
 		}
-		// in a literal: every return behind the receive hands back a non-nil error
+		// in a literal: can it hand back nil after taking the result?
 		success := map[*ssa.Return]bool{}
 		for _, rs := range successReturns(r.fn) {
 			success[rs.Ret] = true
 		}
-		var bad []ssa.Instruction
+		var mayNil []ssa.Instruction
 		for ret := range success {
 			if p := core.FindPathSkipping(r.fn, r.in, isInstr(ret), nil, skip); p != nil {
-				bad = p
+				mayNil = p
 			}
 		}
-		c.Check(bad == nil, rule, core.FnName(r.fn), "the literal leaves with an error once it has taken the result", core.InstrPos(r.in),
-			"every return behind this receive hands back a non-nil error", "the literal can take the helper goroutine's result and still return nil (the goroutine reports nil when its context is cancelled): the caller carries on, and when it comes to collect the result at the end there is none left - Do, and with it the validation, never returns").Path = c.P.PathStrings(bad)
-		// the caller leaves on that error before it can receive again
+		// its caller: after the call no further receive of the result is reached - on any outcome when the
+		// literal can return nil after the receive, on the non-nil outcome otherwise (the nil outcome then
+		// means the literal left through a path that did not take the result)
+		nCalls := 0
 		core.Instrs(top, func(in ssa.Instruction) {
 			cl, ok := in.(*ssa.Call)
 			if !ok || calledFunc(cl) != r.fn {
 				return
 			}
-			p := core.FindPathSkipping(top, cl, isRecvOrCallOfReceiver(cl), nil, func(b, s2 *ssa.BasicBlock) bool { return nilOutcomeEdge(cl, b, s2) })
-			c.Check(p == nil, rule, core.FnName(top), "caller returns on the literal's error before receiving again", core.InstrPos(cl),
-				"on the non-nil outcome of the call no receive of the result is reached", "the caller can go on to receive the result although the literal it called reported an error after taking it").Path = c.P.PathStrings(p)
+			nCalls++
+			var skipNil func(b, s2 *ssa.BasicBlock) bool
+			if mayNil == nil {
+				skipNil = func(b, s2 *ssa.BasicBlock) bool { return nilOutcomeEdge(cl, b, s2) }
+			}
+			p := core.FindPathSkipping(top, cl, isRecvOrCallOfReceiver(nil), nil, skipNil)
+			o := c.Check(p == nil, rule, core.FnName(top), "no further receive of the result after the call of the literal that takes it", core.InstrPos(cl),
+				"the literal leaves with an error once it has taken the result and the caller returns on it (or the caller returns whatever the literal hands back)",
+				"a literal called here can take the helper goroutine's result and the caller can still come to receive it again (the literal can return nil after the receive - the goroutine reports nil when its context is cancelled - or the caller goes on after the literal's error): the goroutine sends once, so that receive waits for ever and Do, and with it the validation, never returns")
+			if p != nil {
+				o.Path = append(c.P.PathStrings(mayNil), c.P.PathStrings(p)...)
+			}
 		})
+		if nCalls == 0 {
+			c.Bad(rule, core.FnName(r.fn), "literal that receives the result is called from "+core.FnName(top), core.InstrPos(r.in), "a literal receives the helper goroutine's result but no call of it was found in the function that started the goroutine")
+		}
 	}
 	c.Floor(rule, "receives of a helper goroutine's single result in "+core.FnName(top), len(recvs), 2)
 }
